@@ -680,6 +680,72 @@ def check_value_ops(sess):
     return obs
 
 
+def check_unpack_i32(sess):
+    """conversion of an int argument to the host's i32 (`impl UnpackValue for i32`, used by most builtins)"""
+    from mirsym.contracts import SOME, NONE
+    obs = []
+
+    def c_unpack_i32_fast(ex, st, args, path, callee):
+        v = args[0]
+        if isinstance(v, Struct) and v.ty == 'ValueNum':
+            n = v.fields[0]
+            if n.variant == 'Int' and n.fields[0].variant == 'Small':
+                return [('ret', SOME(n.fields[0].fields[0]), path)]
+        return [('ret', NONE(), path)]
+
+    def c_to_string(ex, st, args, path, callee):
+        return [('ret', Opaque('string'), path)]
+    extra = VALUE_EXTRA + [('Value::unpack_i32 = the operand if it is an inline int (receiver plumbing)', r'Value::<.*>::unpack_i32$', c_unpack_i32_fast),
+                           ('ToString::to_string (error message text) = opaque', r' as (std::string::)?ToString>::to_string$', c_to_string),
+                           ('any::type_name = opaque', r'any::type_name::<', c_to_string)]
+    for ka in ('small', 'big', 'other'):
+        t1 = time.time()
+        ob = Obligation(f'C10.unpack_i32[{ka}]', 'an int argument converts to i32 exactly when it fits (then to the same value); a big int is a clean "too big" error; a non-int is not an int',
+                        'integer mode: no magnitude bound')
+        try:
+            ex = sess.executor(True, extra=extra)
+            mem = {}
+            if ka == 'other':
+                val = Struct([Enum('Float', [Opaque('f')], 'NumRef')], 'ValueNum')
+                am, ac = None, []
+            else:
+                (a, am, ac), = operands(ex, (ka,), ('a',), mem)
+                val = Struct([Enum('Int', [a], 'NumRef')], 'ValueNum')
+            fn = ex.get_fn(sess.db.find_in_file('int/i32.rs', 'unpack_value_impl'))
+            outs = ex.run(fn, [val], Path(ac), mem=mem)
+            ob.paths = len(outs)
+            for v, p, m in outs:
+                if ka == 'other':
+                    bad = not (v.variant == 'Ok' and v.fields[0].variant == 'None')
+                    if bad:
+                        ob.fail({'kind': 'unpack_i32', 'x': 'non-int', 'result': str(v)[:60]})
+                    continue
+                if v.variant == 'Ok':
+                    o = v.fields[0]
+                    viol = z3.BoolVal(True) if o.variant == 'None' else z3.Or(z3.Not(in_range(am, 32, True)), o.fields[0] != am)
+                else:
+                    viol = in_range(am, 32, True)
+                r, model = sess.decide(ob, list(p.conds) + [viol], ex.extra_lemmas)
+                if r == 'sat':
+                    ob.fail({'kind': 'unpack_i32', 'x': str(model_int(model, am)), 'reps': [ka]})
+                elif r == 'unknown':
+                    ob.inconclusive(f'solver unknown: {model}')
+            for pn in ex.panics:
+                sess.panic_edges_checked += 1
+                r, model = sess.decide(ob, pn.conds, ex.extra_lemmas)
+                if r == 'sat':
+                    ob.fail({'kind': 'unpack_i32', 'x': str(model_int(model, am)) if am is not None else 'non-int', 'panic': pn.msg})
+            ob.twin = 'sat' if outs else 'unsat'
+            if not outs:
+                ob.inconclusive('no return path')
+            sess.absorb(ex)
+        except (Unsupported, LookupError) as e:
+            ob.inconclusive(f'unsupported: {e}')
+        ob.wall_s = time.time() - t1
+        obs.append(sess.add(ob))
+    return obs
+
+
 def run(sess):
     for op in ('add', 'sub', 'mul', 'floor_div', 'percent', 'left_shift', 'right_shift', 'bitand', 'bitor', 'bitxor', 'cmp', 'eq'):
         check_binop(sess, op)
@@ -691,6 +757,7 @@ def run(sess):
     check_cmp_small_big(sess)
     check_floats(sess)
     check_value_ops(sess)
+    check_unpack_i32(sess)
 
 
 # ----------------------------------------------------------------------------- interface for ./check
@@ -736,6 +803,24 @@ def replay_witness(w, rp):
         expects = [('ok', str(x))] * 2
         descr = f'host integer {x} round trip'
         role = f'int from {w.get("ty")}'
+    elif kind == 'unpack_i32':
+        if w['x'] == 'non-int':
+            return {'reproduced': False, 'detail': 'no replay for non-int operands', 'role': 'int to host i32'}
+        x = int(w['x'])
+        fits = I32_MIN <= x <= I32_MAX
+        cases = [{'kind': 'eval', 'program': 'len("ab" * x) if x < 1000 else 0', 'vars': {'x': {'int': str(x)}}},
+                 {'kind': 'eval', 'program': '[10, 20, 30][x]', 'vars': {'x': {'int': str(x)}}},
+                 {'kind': 'eval', 'program': 'list(enumerate(["a"], x))', 'vars': {'x': {'int': str(x)}}}]
+        if fits:
+            try:
+                e2 = ('ok', str([10, 20, 30][x]))
+            except IndexError:
+                e2 = ('err', 'index')
+            expects = [('ok', str(len("ab" * x) if x < 1000 else 0)), e2, ('ok', str([(x, "a")]).replace("'", '"'))]
+        else:
+            expects = [('err', 'too big')] * 3
+        descr = f'int argument {x} converted to i32'
+        role = 'int to host i32'
     elif kind == 'int_to_float':
         import struct
         a = int(w['a'])
